@@ -121,8 +121,8 @@ func gen(n int, cluster bool) []hashing.Digest {
 	symPos := positions[rt.Choose("sympos", rt.Param("POS", 1))]
 	for k := 0; k < n; k++ {
 		name := fmt.Sprintf("d%d", k)
-		if !cluster {
-			ds[k] = models.PrefixedDigest(name, L, byte(k+1), 0, 0)
+		if !cluster || (mixed && rt.Choose(fmt.Sprintf("far%d", k), 2) == 1) {
+			ds[k] = models.PrefixedDigest(name, L, 0x60+byte(k), 0, 0)
 			continue
 		}
 		d := make([]byte, L)
@@ -142,6 +142,14 @@ func gen(n int, cluster bool) []hashing.Digest {
 		}
 	}
 	return ds
+}
+
+var mixed bool
+
+// Mixed: every event either clusters (shares the cache-level prefix) or has its own prefix.
+func Mixed() {
+	mixed = true
+	run(true)
 }
 
 func run(cluster bool) {
